@@ -49,6 +49,8 @@ def exCf : State :=
     active := some { id := 1, size := 20, src := [7, 8, 9, 10, 11, 12, 13, 14], consumed := 6 },
     timerStmin := { start := some 0, timeout := 0 } }
 
+instance (s : State) : Decidable (NoStandbySt s) := by unfold NoStandbySt; infer_instance
+
 theorem standbyOk_of_none (s : State) (h : s.standby = none) : StandbyOk s := by
   intro m hm; rw [h] at hm; cases hm
 
